@@ -644,6 +644,82 @@ Proof.
   rewrite P'. simpl. rewrite G'. simpl. rewrite E3, Ty. reflexivity.
 Qed.
 
+
+(* ------------------------------------------------------------------ *)
+(* emitted token: what the consumer parses (incl. the rfc7797 paths)   *)
+(* ------------------------------------------------------------------ *)
+Lemma tr_nonempty o : tr (nonempty o) = tr o.
+Proof. unfold nonempty. destruct (tr o) eqn:E; simpl; auto. Qed.
+
+Theorem emit_headers g : headers (jws_emit g) = headers g.
+Proof.
+  unfold jws_emit, headers. destruct (g_kind g); simpl; rewrite ?tr_nonempty; reflexivity.
+Qed.
+
+Theorem emit_written g k v : written_at g k v -> written_at (jws_emit g) k v.
+Proof.
+  unfold written_at, jws_emit. destruct (g_kind g); simpl; rewrite ?tr_nonempty; auto.
+Qed.
+
+Theorem emit_protected_carries g k v :
+  (g_kind g = GJwsCompact \/ g_kind g = GJweCompact) -> written_at g k v ->
+  exists p, g_prot (jws_emit g) = Some p /\ dget p k = Some v.
+Proof.
+  unfold written_at, jws_emit. intros [E|E] W; rewrite E in *; simpl; eexists; split; eauto.
+Qed.
+
+Lemma jws_step_false_headers tbl ch ch' kf1 kf2 g1 g2 ks k :
+  headers g2 = headers g1 -> resolve kf1 g1 = KSSet ks -> resolve kf2 g2 = KSSet ks ->
+  jws_step tbl ch false kf1 g1 = Ok (k, g1) -> jws_step tbl ch' false kf2 g2 = Ok (k, g2).
+Proof.
+  intros H R1 R2. unfold jws_step.
+  rewrite (guess_consume tbl ch kf1 g1 ks R1), (guess_consume tbl ch' kf2 g2 ks R2), H.
+  destruct (jws_precheck (headers g1)) as [kty|]; simpl; [|discriminate].
+  destruct (get_by_kid ks (hget (headers g1) s_kid)) as [k1|]; simpl; [|discriminate].
+  destruct (String.eqb (k_kty k1) kty); [|discriminate]. intro E; inversion E; reflexivity.
+Qed.
+
+Theorem jws_produce_emit_consume tbl ch ch' kf kf' g ks k g' pub :
+  chooser_ok ch -> guest_wf g ->
+  Forall has_kid ks -> NoDup (map k_kid ks) ->
+  resolve kf g = KSSet ks -> py_truth (hget (headers g) s_kid) = false ->
+  jws_step tbl ch true kf g = Ok (k, g') ->
+  import_key_set (keyset_as_dict ks) = Ok pub -> resolve kf' (jws_emit g') = KSSet pub ->
+  written_at (jws_emit g') s_kid (kid_pv k) /\
+  exists k', jws_step tbl ch' false kf' (jws_emit g') = Ok (k', jws_emit g') /\
+             k_id k' = k_id k /\ k_kid k' = k_kid k /\ k_kty k' = k_kty k.
+Proof.
+  intros Hch W F ND R T S I R'.
+  assert (guess_key tbl ch kf g true = Ok (k, g')) as G.
+  { unfold jws_step in S. destruct (jws_precheck (headers g)) as [kty|]; simpl in S; [|discriminate].
+    destruct (guess_key tbl ch kf g true) as [[k1 g1]|]; simpl in S; [|discriminate].
+    destruct (String.eqb (k_kty k1) kty); [|discriminate]. inversion S; reflexivity. }
+  destruct (guess_pick tbl ch kf g ks k g' Hch R T G) as (k0 & a & _ & _ & _ & _ & _ & _ & Wr).
+  split; [apply emit_written; exact Wr|].
+  destruct (jws_produce_consume tbl ch ch' kf (KFDirect (KSSet pub)) g ks k g' pub Hch W F ND R T S I eq_refl)
+    as (k' & S' & E1 & E2 & E3).
+  exists k'. split; auto.
+  apply (jws_step_false_headers tbl ch' ch' (KFDirect (KSSet pub)) kf' g' (jws_emit g') pub k'); auto.
+  apply emit_headers.
+Qed.
+
+(* rfc7797.serialize_json, b64 = false: same selection, no key type check *)
+Theorem jws7797_json_step_spec tbl ch kf g k g' :
+  jws7797_json_step tbl ch kf g = Ok (k, g') ->
+  (exists kty, jws_precheck (headers g) = Ok kty) /\ guess_key tbl ch kf g true = Ok (k, g').
+Proof.
+  unfold jws7797_json_step. destruct (jws_precheck (headers g)) as [kty|]; simpl; [|discriminate].
+  intro E. split; eauto.
+Qed.
+
+Theorem jws7797_json_agrees tbl ch kf g k g' kty :
+  jws7797_json_step tbl ch kf g = Ok (k, g') -> jws_precheck (headers g) = Ok kty ->
+  k_kty k = kty -> jws_step tbl ch true kf g = Ok (k, g').
+Proof.
+  unfold jws7797_json_step, jws_step. intros S P K. rewrite P in *. simpl in *. rewrite S. simpl.
+  subst kty. rewrite String.eqb_refl. reflexivity.
+Qed.
+
 (* and through the JWE entry points (no sender key) *)
 Theorem jwe_produce_consume tbl ch sch ch' sch' kf kf' g ks k so g' pub :
   chooser_ok ch -> guest_wf g ->
